@@ -101,6 +101,14 @@ func c09Build(cs []tcue, styled bool) (*astisub.Subtitles, []string) {
 func c09Check(cs []tcue, d int64, styled bool) string {
 	sub, snaps := c09Build(cs, styled)
 	ptrs := append([]*astisub.Item(nil), sub.Items...)
+	if (len(cs)+int(uint64(d)&3))%4 == 1 {
+		if p := guard(func() { prewarm(sub) }); p != "" {
+			return p
+		}
+		if !samePtrs(sub.Items, ptrs) {
+			return "prewarm changed the list"
+		}
+	}
 	if p := guard(func() { sub.Add(time.Duration(d)) }); p != "" {
 		return p
 	}
@@ -145,7 +153,7 @@ func c09Check(cs []tcue, d int64, styled bool) string {
 }
 
 func c09Random(r *fw.Rand) ([]tcue, int64) {
-	n := r.Intn(41)
+	n := listSize(r, 40)
 	unit := fw.Pick(r, []int64{1, 1000, 1000000, 1000000000})
 	span := fw.Pick(r, []int64{10, 1000, 86400})
 	neg := r.P(1, 4)
